@@ -3,7 +3,7 @@
    [wl L s mid t] is Some (total length) exactly when s -> mid... -> t moves only along existing connections. *)
 From Coq Require Import QArith List Arith ZArith Lia.
 From BCT Require Import Base.Mat Base.ListX Model.Distance Model.Paths
-  Proofs.DistanceBase Proofs.DistanceFloyd Proofs.DistanceOther Proofs.Paths.
+  Proofs.DistanceBase Proofs.DistanceFloyd Proofs.DistanceOther Proofs.Paths Proofs.PathsFull.
 Import ListNotations.
 Open Scope Q_scope.
 
@@ -39,6 +39,11 @@ Theorem C12_retrieve_shortest : forall n L, nonneg n L ->
   forall mid y, below n mid -> wl L s mid t = Some y -> x <= y.
 Proof. exact retrieve_shortest. Qed.
 
+(* source = target: hops[s,s] = 0 and the returned path is empty (the one case where "empty" does not mean
+   "unreachable"; the property's clauses are about pairs of distinct nodes) *)
+Theorem C12_retrieve_diag : forall n L s, retrieve s s (hops (floyd n L)) (pmat (floyd n L)) = [].
+Proof. exact retrieve_diag. Qed.
+
 (* with each transform (None / 'inv' / 'log', -log abstract and >= 0 on (0,1]) *)
 Theorem C12_retrieve_transforms : forall nlog : Q -> Q,
   (forall w, 0 < w -> w <= 1 -> 0 <= nlog w) ->
@@ -55,17 +60,35 @@ Proof. exact retrieve_valid_transforms. Qed.
 
 (* ---------- navigation_wu ---------- *)
 (* for every fuel, length matrix L, nodal distance matrix D, max_hops and pair: the recorded node list starts
-   at i, is non-empty, is a walk along nonzero entries of L inside {0..n-1}; on success (nv_len = Some (b,w,d))
-   it ends at j and b = #hops, w = summed L, d = summed D along it; failure is nv_len = None, i.e. (inf,inf,inf) *)
+   at i, is non-empty, is a walk along nonzero entries of L inside {0..n-1}; the three reported lengths
+   (nv_bin, nv_wei, nv_dis; None = infinity) are either all finite — then the list ends at j and they are its
+   hop count, summed L and summed D — or all infinite — then the list does not end at j; never mixed *)
 Theorem C12_nav_walk_valid : forall n L D mh fuel i j r, (i < n)%nat ->
   nav_pair fuel n L D mh i j = Some r ->
   hd j (nv_path r) = i /\ nv_path r <> [] /\ chain L (nv_path r) /\ Forall (fun v => (v < n)%nat) (nv_path r) /\
-  match nv_len r with
-  | Some (b, w, d) => last (nv_path r) i = j /\ S b = length (nv_path r) /\
-                      w == lsum L (nv_path r) /\ d == lsum D (nv_path r)
-  | None => True
+  match nv_bin r, nv_wei r, nv_dis r with
+  | Some b, Some w, Some d => last (nv_path r) i = j /\ S b = length (nv_path r) /\
+                              w == lsum L (nv_path r) /\ d == lsum D (nv_path r)
+  | None, None, None => last (nv_path r) i <> j
+  | _, _, _ => False
   end.
 Proof. exact nav_walk_valid. Qed.
+
+(* failed navigations are reported as infinite in all three, and they are exactly those that do not reach j *)
+Theorem C12_nav_fail_all_inf : forall n L D mh fuel i j r, (i < n)%nat -> nav_pair fuel n L D mh i j = Some r ->
+  (nv_bin r = None <-> nv_wei r = None) /\ (nv_bin r = None <-> nv_dis r = None) /\
+  (nv_bin r = None <-> last (nv_path r) i <> j).
+Proof. exact nav_fail_all_inf. Qed.
+
+(* exactly one result per ordered pair of distinct nodes, position by position in row-major order *)
+Theorem C12_nav_one_per_pair : forall fuel n L D mh sr rs, navigation_wu fuel n L D mh = Some (sr, rs) ->
+  map (fun c => nav_pair fuel n L D mh (fst c) (snd c)) (offdiag n) = map Some rs.
+Proof. exact nav_one_per_pair. Qed.
+
+(* with a finite max_hops the navigation loop always terminates: fuel max_hops + 2 is sufficient *)
+Theorem C12_nav_returns : forall n L D m fuel, (m + 2 <= fuel)%nat ->
+  exists res, navigation_wu fuel n L D (Some m) = Some res.
+Proof. exact navigation_wu_total. Qed.
 
 Theorem C12_nav_all_valid : forall fuel n L D mh sr rs, navigation_wu fuel n L D mh = Some (sr, rs) ->
   forall r, In r rs -> exists i j, (i < n)%nat /\ (j < n)%nat /\ i <> j /\
@@ -93,7 +116,7 @@ Example C12_nonvacuous :
   retrieve 3 2 (hops (floyd 5 L)) (pmat (floyd 5 L)) = [3;0;2]%nat /\
   retrieve 0 4 (hops (floyd 5 L)) (pmat (floyd 5 L)) = [] /\
   exists r, nav_pair 10 3 (of_rows 0 [[0;1;0];[1;0;1];[0;1;0]]) (of_rows 0 [[0;1;2];[1;0;1];[2;1;0]]) None 0 2 = Some r /\
-            nv_path r = [0;1;2]%nat /\ nv_len r = Some (2%nat, 0 + 1 + 1, 0 + 1 + 1).
+            nv_path r = [0;1;2]%nat /\ nv_bin r = Some 2%nat /\ nv_wei r = Some (0 + 1 + 1) /\ nv_dis r = Some (0 + 1 + 1).
 Proof.
   split.
   - apply lengths_nonneg; [|discriminate]. intros i j _ _. apply of_rows_nonneg.
@@ -101,12 +124,23 @@ Proof.
   - vm_compute. repeat split. eexists. repeat split.
 Qed.
 
+(* non-vacuity of the failure clause: 0 -> 1 is the only connection; navigating 0 -> 2 steps to 1 and hits a dead end:
+   all three lengths infinite, the recorded list [0;1] does not end at the target *)
+Example C12_nav_fail_nonvacuous :
+  exists r, nav_pair 10 3 (of_rows 0 [[0;1;0];[0;0;0];[0;0;0]]) (of_rows 0 [[0;1;2];[1;0;1];[2;1;0]]) (Some 3%nat) 0 2 = Some r /\
+            nv_path r = [0;1]%nat /\ nv_bin r = None /\ nv_wei r = None /\ nv_dis r = None.
+Proof. eexists. vm_compute. repeat split. Qed.
+
 Print Assumptions C12_floyd_path_inv.
 Print Assumptions C12_retrieve_valid.
 Print Assumptions C12_retrieve_empty_iff.
 Print Assumptions C12_retrieve_shortest.
 Print Assumptions C12_retrieve_transforms.
+Print Assumptions C12_retrieve_diag.
 Print Assumptions C12_nav_walk_valid.
+Print Assumptions C12_nav_fail_all_inf.
+Print Assumptions C12_nav_one_per_pair.
+Print Assumptions C12_nav_returns.
 Print Assumptions C12_nav_all_valid.
 Print Assumptions C12_nav_success_ratio.
 Print Assumptions C12_nav_step_greedy.
